@@ -46,6 +46,8 @@ class ConcreteBuilder:
         v = int(self._get(name, lo if lo is not None else 0))
         if (lo is not None and v < lo) or (hi is not None and v >= hi):
             self.ok = False
+            # keep whatever is built from it bounded: clamp into the declared range
+            v = lo if lo is not None else (hi - 1)
         return v
 
     def bool(self, name):
